@@ -29,3 +29,35 @@ Definition check_merkle (c : mcase) : N :=
   bit (sroot N 0 (hd_t c) (hn_t c) 256 entries =? mc_root c) 1
   + bit (forallb (fun p => let '(k, v, sibs, ok) := p in
                            Bool.eqb (climb N (hn_t c) sibs (key_bits k) (hd_t c v) =? mc_root c) ok) (mc_proofs c)) 2.
+
+(* ---- dense trees (Merkle/Dense.v against novasmt::dense) *)
+From MelVerif Require Import Merkle.Dense.
+
+Record dcase := {
+  dc_blocks : list (list N);
+  dc_root : N;                                  (* DenseMerkleTree::root_hash *)
+  dc_hdata : list (list N * N);
+  dc_hnode : list ((N * N) * N);
+  dc_proofs : list (N * list N * list N * bool) (* index, leaf data, DenseMerkleTree::proof (bottom first), verify_dense *)
+}.
+
+Definition dhd (c : dcase) (v : list N) : N :=
+  match v with [] => 0 | _ => match assoc bytes_eqb v (dc_hdata c) with Some h => h | None => MISSING end end.
+Definition dhn (c : dcase) (a b : N) : N :=
+  if (a =? 0) && (b =? 0) then 0
+  else match assoc (fun x y => (fst x =? fst y) && (snd x =? snd y)) (a, b) (dc_hnode c) with
+       | Some h => h | None => MISSING + 1 end.
+
+(* smallest k with 2^k >= n (next_power_of_two) *)
+Fixpoint log2_up_fuel (fuel : nat) (k : nat) (n : nat) : nat :=
+  match fuel with O => k | S f => if Nat.leb n (2 ^ k) then k else log2_up_fuel f (S k) n end.
+Definition depth_for (n : nat) : nat := log2_up_fuel 64 0 n.
+
+Definition check_dense (c : dcase) : N :=
+  let blocks := dc_blocks c in
+  let k := depth_for (length blocks) in
+  bit (dense_root N 0 (dhd c) (dhn c) k blocks =? dc_root c) 1
+  + bit (forallb (fun p => let '(i, v, pr, ok) := p in
+           Bool.eqb (dense_climb N (dhn c) pr (N.to_nat i) (dhd c v) =? dc_root c) ok) (dc_proofs c)) 2
+  + bit (forallb (fun p => let '(i, v, pr, ok) := p in
+           negb ok || list_eqb N.eqb pr (dense_proof N (dhd c) (dhn c) k blocks (N.to_nat i))) (dc_proofs c)) 4.
